@@ -93,30 +93,7 @@ def run(ctx):
             ctx.check(rt == ct, 'R09.3', key + '/return', b.where(bi), b.path,
                       'inner result is not returned unchanged', found=show(rt, maxdepth=4))
 
-    # ---- R09.2 Frame::forward_transformed
-    ft = prog.find(suffix='frame::Frame::forward_transformed')
-    ctx.require(len(ft) == 1, 'Frame::forward_transformed')
-    ft = ft[0]
-    ctx.fn(ft)
-    vv = util.virtual_calls(ft)
-    names = sorted(x[2] for x in vv)
-    if ctx.check(names == ['forward', 'inverse_continuing'], 'R09.2', 'frame::Frame/forward_transformed/calls', ft.where(0), ft.path,
-                 'expected inner forward then inverse_continuing', found=names):
-        f = [x for x in vv if x[2] == 'forward'][0]
-        ic = [x for x in vv if x[2] == 'inverse_continuing'][0]
-        X = algebra.canon(strip(ft.call_term(f[1], (f[0], None))))
-        pose_w = algebra.word(ft.op_term(ic[1]['args'][1], (ic[0], None)))
-        frame_atom = None
-        ok = len(pose_w) == 2 and pose_w[1] == (X, 1) and pose_w[0][1] == 1 and _is_self_fld(pose_w[0][0], 'frame')
-        ctx.check(ok, 'R09.2', 'frame::Frame/forward_transformed/pose', ft.where(ic[0]), ft.path,
-                  'pose solved for is not frame * forward(qs)', found=_sw(pose_w), expected='self.frame * forward(qs)', detail=_sw(pose_w))
-        ctx.check(util.is_param(ft.op_term(f[1]['args'][1], (f[0], None)), 2) and util.is_param(ft.op_term(ic[1]['args'][2], (ic[0], None)), 3),
-                  'R09.3', 'frame::Frame/forward_transformed/args', ft.where(ic[0]), ft.path, 'qs / previous not passed unchanged')
-        rt = strip(ft.return_term())
-        ok = isinstance(rt, tuple) and rt[0] == 'agg' and len(rt) == 4 and strip(rt[2]) == strip(ft.call_term(ic[1], (ic[0], None))) \
-            and algebra.word(rt[3]) == pose_w
-        ctx.check(ok, 'R09.3', 'frame::Frame/forward_transformed/return', ft.where(ic[0]), ft.path,
-                  'does not return (inner solutions, frame-moved pose)', found=show(rt, maxdepth=4))
+    forward_transformed(ctx, prog, 'R09.2', 'R09.3')
 
     # ---- R09.4 link poses
     tool = prog.trait_impl_method('tool::Tool', 'Kinematics', 'forward_with_joint_poses')
@@ -130,6 +107,34 @@ def run(ctx):
     # ---- R09.5 axes
     _linear_axis(ctx, prog)
     _gantry(ctx, prog)
+
+
+def forward_transformed(ctx, prog, r2, r3):
+    # ---- R09.2 Frame::forward_transformed
+    ft = prog.find(suffix='frame::Frame::forward_transformed')
+    ctx.require(len(ft) == 1, 'Frame::forward_transformed')
+    ft = ft[0]
+    ctx.fn(ft)
+    vv = util.virtual_calls(ft)
+    names = sorted(x[2] for x in vv)
+    if ctx.check(names == ['forward', 'inverse_continuing'], r2, 'frame::Frame/forward_transformed/calls', ft.where(0), ft.path,
+                 'expected inner forward then inverse_continuing', found=names):
+        f = [x for x in vv if x[2] == 'forward'][0]
+        ic = [x for x in vv if x[2] == 'inverse_continuing'][0]
+        X = algebra.canon(strip(ft.call_term(f[1], (f[0], None))))
+        pose_w = algebra.word(ft.op_term(ic[1]['args'][1], (ic[0], None)))
+        frame_atom = None
+        ok = len(pose_w) == 2 and pose_w[1] == (X, 1) and pose_w[0][1] == 1 and _is_self_fld(pose_w[0][0], 'frame')
+        ctx.check(ok, r2, 'frame::Frame/forward_transformed/pose', ft.where(ic[0]), ft.path,
+                  'pose solved for is not frame * forward(qs)', found=_sw(pose_w), expected='self.frame * forward(qs)', detail=_sw(pose_w))
+        ctx.check(util.is_param(ft.op_term(f[1]['args'][1], (f[0], None)), 2) and util.is_param(ft.op_term(ic[1]['args'][2], (ic[0], None)), 3),
+                  r3, 'frame::Frame/forward_transformed/args', ft.where(ic[0]), ft.path, 'qs / previous not passed unchanged')
+        rt = strip(ft.return_term())
+        ok = isinstance(rt, tuple) and rt[0] == 'agg' and len(rt) == 4 and strip(rt[2]) == strip(ft.call_term(ic[1], (ic[0], None))) \
+            and algebra.word(rt[3]) == pose_w
+        ctx.check(ok, r3, 'frame::Frame/forward_transformed/return', ft.where(ic[0]), ft.path,
+                  'does not return (inner solutions, frame-moved pose)', found=show(rt, maxdepth=4))
+
 
 
 def _sw(w):
